@@ -43,6 +43,8 @@ inductive Atom
   | success | failure
   | everything
   | require (n : Nat)
+  | utf8Range (found : Bool) (lo hi : Nat)          -- `utf8::range` / `utf8::not_range` (code points)
+  | maxDigits (mx : Nat)                            -- `integer::maximum_rule< Unsigned, mx >`
   deriving DecidableEq, Repr, Inhabited
 
 /-- Which exceptions a `try_catch_*` rule names. -/
